@@ -188,9 +188,9 @@ Section Conservation.
         * destruct (length q <? cap)%nat; cbn [fst snd] in *.
           -- rewrite <- IH. rewrite <- app_assoc. reflexivity.
           -- exact IH.
-        * destruct q as [|y q']; cbn [fst snd] in *; [exact IH|]. rewrite <- IH. reflexivity.
+        * destruct q as [|y q']; cbn [fst snd app] in *; [exact IH|]. rewrite <- IH. reflexivity.
         * cbn [fst snd]. exact IH.
-        * destruct q as [|y q']; cbn [fst snd] in *; [exact IH|]. rewrite <- IH. reflexivity.
+        * destruct q as [|y q']; cbn [fst snd app] in *; [exact IH|]. rewrite <- IH. reflexivity.
       + destruct (st t) as [|o|o x']; try discriminate.
         destruct (res_eqb (VQ cap) x x'); inversion E; subst; exact IH.
   Qed.
